@@ -353,6 +353,8 @@ class Sccp:
         if isinstance(p, tuple) and p[0] == "f":
             if v[0] == "v" and p[1] == "0":
                 return v[2]
+            if v[0] == "t" and str(p[1]).isdigit() and int(p[1]) < len(v[1]):
+                return v[1][int(p[1])]
             return None
         return None
 
@@ -417,6 +419,10 @@ class Sccp:
             if len(rv["ops"]) == 1:
                 payload = self._operand(env, rv["ops"][0])
             return V(rv["variant"], payload)
+        if k == "agg" and rv.get("tuple") and len(rv["ops"]) >= 2:
+            # (a, b, …) as scrutinee of a match: tracked per component
+            vals = tuple(self._operand(env, o) for o in rv["ops"])
+            return ("t", vals) if any(x is not None for x in vals) else None
         if k == "ref":
             # a shared reference to a known value reads as that value through deref
             if not rv.get("mut"):
